@@ -134,7 +134,7 @@ theorem inChains_spec {pt : Pt} {I : List Nat} {n : Nat} {bot : Option Nat} {bh 
     (hcb : CB pt st) (hp : HP pt I I n st) (hbh : BotHelpOk pt I n st bh)
     (h : inChains pt bot bh inc st = some (st', ic)) :
     CB pt st' ∧ IcOk pt n st' ic ∧ st'.chains.length = st.chains.length ∧
-    (∀ m ∈ st'.outputs, m ∈ st.outputs ∨ wellFormed m = true) := by
+    (∀ m ∈ st'.outputs, m ∈ st.outputs ∨ wellFormed m = true) ∧ (ic.1 = none → st' = st) := by
   unfold inChains at h
   osplit h
   · rename_i h0 h1
@@ -181,7 +181,7 @@ theorem inChains_spec {pt : Pt} {I : List Nat} {n : Nat} {bot : Option Nat} {bh 
       · simp only [Option.some.injEq, Prod.mk.injEq] at h
         obtain ⟨h, hic⟩ := h
         subst h hic
-        refine ⟨p1, ⟨?_, ?_, ?_⟩, ?_, houts⟩
+        refine ⟨p1, ⟨?_, ?_, ?_⟩, ?_, houts, by intro e; simp at e⟩
         · intro x hx; cases hx; exact ⟨l0, p2⟩
         · intro y hy; cases hy
         · intro x y _ hy; cases hy
@@ -208,7 +208,7 @@ theorem inChains_spec {pt : Pt} {I : List Nat} {n : Nat} {bot : Option Nat} {bh 
           have : st4.segs[in1]? = some s := hs
           rw [p4] at this; exact this
         have hlih : li ≠ h0 := hfree3 in1 hin1 s a li hs3 hr
-        refine ⟨q1, ⟨?_, ?_, ?_⟩, ?_, ?_⟩
+        refine ⟨q1, ⟨?_, ?_, ?_⟩, ?_, ?_, by intro e; simp at e⟩
         · intro x hx; cases hx
           refine ⟨l0, ?_⟩
           intro c hc
@@ -236,7 +236,7 @@ theorem inChains_spec {pt : Pt} {I : List Nat} {n : Nat} {bot : Option Nat} {bh 
       simp only [Option.some.injEq, Prod.mk.injEq] at h
       obtain ⟨h, hic⟩ := h
       subst h hic
-      refine ⟨q1, ⟨?_, ?_, ?_⟩, ?_, ?_⟩
+      refine ⟨q1, ⟨?_, ?_, ?_⟩, ?_, ?_, by intro e; simp at e⟩
       · intro x hx; cases hx
         refine ⟨l0, ?_⟩
         intro c hc
@@ -252,7 +252,7 @@ theorem inChains_spec {pt : Pt} {I : List Nat} {n : Nat} {bot : Option Nat} {bh 
     · simp only [Option.some.injEq, Prod.mk.injEq] at h
       obtain ⟨h, hic⟩ := h
       subst h hic
-      refine ⟨hcb, ⟨?_, ?_, ?_⟩, rfl, fun m hm => Or.inl hm⟩
+      refine ⟨hcb, ⟨?_, ?_, ?_⟩, rfl, fun m hm => Or.inl hm, fun _ => rfl⟩
       · intro x hx; cases hx
       · intro y hy; cases hy
       · intro x y hx; cases hx
@@ -265,7 +265,7 @@ theorem inChains_spec {pt : Pt} {I : List Nat} {n : Nat} {bot : Option Nat} {bh 
       · simp only [Option.some.injEq, Prod.mk.injEq] at h
         obtain ⟨h, hic⟩ := h
         subst h hic
-        refine ⟨q1, ⟨?_, ?_, ?_⟩, q5, q6⟩
+        refine ⟨q1, ⟨?_, ?_, ?_⟩, q5, q6, by intro e; simp at e⟩
         · intro x hx; cases hx; exact ⟨hp.lt lastIn hlI s a li hs hr, q2⟩
         · intro y hy; cases hy
         · intro x y _ hy; cases hy
@@ -285,7 +285,7 @@ theorem inChains_spec {pt : Pt} {I : List Nat} {n : Nat} {bot : Option Nat} {bh 
           intro e
           have := hp.inj in0 hin0 lastIn hlI s0 s 0 a li hs0 hs (by simp only [refOf]; rw [hs0i, e]) hr
           exact hne this.1
-        refine ⟨q1, ⟨?_, ?_, ?_⟩, q5, q6⟩
+        refine ⟨q1, ⟨?_, ?_, ?_⟩, q5, q6, by intro e; simp at e⟩
         · intro x hx; cases hx
           refine ⟨hp.lt in0 hin0 s0 0 _ hs0 (by simp only [refOf]; rw [hs0i]), ?_⟩
           intro c hc
